@@ -23,6 +23,9 @@ func init() { engines["codec"] = func() engine { return &codecEngine{} } }
 func (e *codecEngine) reset() {
 	if e.db == nil {
 		e.db = nitro.New()
+		// the default 512 kB bufio buffers make every tiny file operation allocate 1 MB; the framing
+		// does not depend on the buffer size (thorough runs also use the default, see `bufsize`)
+		nitro.DiskBlockSize = 4096
 		e.dir, _ = ioutil.TempDir("", "nvcodec")
 	}
 	e.items = nil
@@ -44,6 +47,13 @@ func (e *codecEngine) step(toks []string) string {
 			return "bad-op"
 		}
 		e.items = append(e.items, b)
+		return "ok"
+	case toks[0] == "bufsize" && len(toks) == 2:
+		n, ok := atoi(toks[1])
+		if !ok || n < 16 {
+			return "bad-op"
+		}
+		nitro.DiskBlockSize = n
 		return "ok"
 	case toks[0] == "write" && len(toks) == 1:
 		path := filepath.Join(e.dir, "f")
